@@ -57,6 +57,7 @@ func main() {
 		offset := fs.Int("offset", 0, "")
 		deadline := fs.Int64("deadline", 0, "")
 		progress := fs.String("progress", "", "")
+		hashFile := fs.String("hashes", "", "")
 		fs.Parse(os.Args[2:])
 		e, err := core.Lookup(*prop)
 		if err != nil {
@@ -72,8 +73,14 @@ func main() {
 		if *deadline > 0 {
 			dl = time.Unix(*deadline, 0)
 		}
-		runtime.GOMAXPROCS(1) // one task runs at a time; hand-offs stay on one thread
-		core.WorkerMain(e, opt, *seed, *start, *stride, *count, *offset, dl, *progress)
+		procs := 1 // one task runs at a time; hand-offs stay on one thread
+		if v, err := strconv.Atoi(os.Getenv("VERIFSIM_GOMAXPROCS")); err == nil && v > 0 {
+			procs = v // the determinism self-test varies this
+		}
+		runtime.GOMAXPROCS(procs)
+		core.WorkerMain(e, opt, *seed, *start, *stride, *count, *offset, dl, *progress, *hashFile)
+	case "selftest-determinism":
+		os.Exit(selftestDeterminism(os.Args[2:]))
 	case "replay":
 		if len(os.Args) < 3 {
 			fmt.Fprintln(os.Stderr, "usage: verifsim replay <file>")
